@@ -22,7 +22,11 @@ RULE = ("oracle cases: (model, parameters, interval kind, n, route) with models 
         "CGMY y in {-0.5,0,0.3,1,1.5,random}), 14 interval kinds (pos, neg, straddle, touching 0, half-lines, whole line, points), "
         "n = 0..5 through integrate/_x/_xx and integrate_against_xn, truncations; non-trivial = the integral is finite and the "
         "interval is not a point; infinite integrals must be reported as +-inf; CGMY y = {0,1} +- 1e-3..1e-8 with relative tolerance 1e-6; "
-        "Coq cases: interval-arithmetic lemmas per (model, closed form, branch), per density, and CGMY formula-vs-code-value")
+        "Coq cases: interval-arithmetic lemmas per (model, closed form, branch), per density, CGMY formula-vs-code-value, and the generic "
+        "fall-backs' branch structure with every recorded scipy.quad call as data; generic fall-backs driven through a LevyMeasure subclass "
+        "that only defines its density (HEM/Merton densities: 10 interval kinds incl. straddling/half-lines/whole line, n = 0..4; VG/CGMY "
+        "singular densities: one side of zero and, for n >= 3, straddling); CGMY with a rate of zero (g = 0 or m = 0, y > 0) on both sides "
+        "and straddling, n = 0..3")
 MODELLED = [
     "tools/integral.py (_helper_sum_fact_xk numpy dot, nested helper), VG integrate_against_xn, LevyMeasure.integrate_against_xn "
     "dispatch, TruncatedLevyMeasure.integrate*, CGMY tails: hand models in Model/LevyClosedForms.v tied by interval case lemmas",
@@ -30,14 +34,20 @@ MODELLED = [
     "semantics (half-line values are stated as limits)",
     "`raise ValueError` for a > b is modelled as the value 0 (all theorems assume a <= b); the oracle checks the exception",
     "scipy.special.erf / exp1 / gamma*gammaincc are modelled by their defining integrals (RInt), tied by `integral` case lemmas",
-    "scipy.integrate.quad fallbacks (generic n >= 3, CGMY second moment off the straddling case): specification only, "
-    "checked by the oracle against mpmath",
+    "scipy.integrate.quad: never modelled, it is the parameter `quad` of Model/LevyGenericQuad.v with the specification quad_spec "
+    "(returns the integral of x^n nu whenever it exists); the code AROUND it in LevyMeasure.integrate / _x / _xx / _xn (a > b guard, "
+    "dispatch on n, split of a straddling interval at zero for n >= 3) is hand-modelled (generic_xn) and tied by case lemmas that take "
+    "every quad call recorded on the implementation as a hypothesis; quad's accuracy (1e-6 rel + 1e-7 abs) is the oracle's business; "
+    "CGMY second moment off the straddling case (scipy.quad inside cgmy.py): oracle only",
+    "Python float `0.0 ** negative` raising ZeroDivisionError: option-valued model pypow / cgmy_x_neg_exec (None = the call raises), "
+    "used only for the witness of finding F-C09-13",
 ]
 ASSUMPTIONS = ["parameters in their declared domain (eta1, eta2, sigma_j, lambda+-, G, M > 0; 0 <= p <= 1; intensity >= 0)",
                "finite end points are strictly inside (-INF, INF) where INF stands for the float infinity"]
 THEOREM_NOTES = {
-    "count": "33 statements: 5 complete (HEM), 12 named _partial, 9 corollaries/instances, 3 _refuted about the code BEFORE earlier fix: commits, "
-             "4 bookkeeping (C09_vg_x_nu, C09_hem_unroll_complete, C09_special_function_models, C09_vg_mass_infinite)",
+    "count": "38 statements: 5 complete (HEM), 12 named _partial, 3 about the generic quadrature fall-backs (complete relative to quad_spec), "
+             "10 corollaries/instances, 3 _refuted about the code BEFORE earlier fix: commits, 1 _refuted about the CURRENT code (F-C09-13), "
+             "4 bookkeeping (C09_vg_x_nu, C09_hem_unroll_complete, C09_special_function_models, C09_vg_mass_infinite); 2 Examples",
     "C09_hem_mass/_x/_xx/_left_halfline/_right_halfline": "complete for HEM: every parameter set, every finite a <= b on either side of 0 or straddling, "
         "half-line values as limits of the finite integrals",
     "C09_xn_exp_partial": "every n and every finite a <= b; the half-line branches (a = -inf, b = +inf) of integral_xn_exp_minus_x are modelled "
@@ -50,11 +60,26 @@ THEOREM_NOTES = {
         "straddling with y < 0, integrate_against_xx (gammainc / scipy.quad), half-lines, and FLOAT conditioning: near y = 0 and y = 1 the code "
         "loses all accuracy although the real formulas are exact (finding F-C09-7, oracle `_near_singular`)",
     "C09_additive / C09_sign": "generic in the closed form: hold for every F with is_RInt (x^n nu) a b (F a b); instantiated for HEM, x^n exp, VG n-th "
-        "moments, Merton (no CGMY instance); these are the `Section Measure` hypotheses (mass_add, mass_pos) of C01/C03/C04",
+        "moments, Merton, CGMY (C09_additive_sign_cgmy: mass and first moment on each side of zero, every y < 2, 0 < g, m) and the generic "
+        "fall-backs; these are the `Section Measure` hypotheses (mass_add, mass_pos) of C01/C03/C04",
+    "C09_generic_fallback": "LevyMeasure.integrate / _x / _xx / integrate_against_xn of a measure WITHOUT closed forms: for every density nu, every "
+        "quad meeting quad_spec, every n and every a <= b over which x^n nu is integrable, generic_xn quad n a b is the integral (n <= 2: one quad "
+        "call over [a,b]; n >= 3: split at zero by Chasles).  Relative to the specification of scipy.quad: its numerical error, and its behaviour "
+        "when the integral does not exist, are outside the statement (oracle: 1e-6 rel + 1e-7 abs; for n <= 2 the code does NOT split at zero, so "
+        "across a singular density quad is only as accurate as it manages: observed 3e-6 relative for |x|^-0.5, not asserted)",
+    "C09_generic_additive_sign / C09_generic_truncated": "what the callers rely on, for a density with x^n nu integrable on every interval (HEM, Merton "
+        "and every bounded piecewise-continuous density; NOT VG/CGMY across zero): additivity, sign rules and TruncatedLevyMeasure over the "
+        "generic fall-backs; C09_generic_nonvacuous: quad_spec is met by RInt itself and the three branches are taken",
+    "C09_cgmy_rate0_refuted": "CURRENT code, finding F-C09-13 (known): CGMY(c=1, g=0, m=5, y=1/2), first moment over [-1,-1/4] is -1 (proved) but the "
+        "executed closed form raises (0.0 ** (y-1)); the oracle reports ZeroDivisionError (first moment, 0 < y < 1) and nan (mass and first "
+        "moment, y = 1) on the side whose rate is zero; the mass for y <> 1, every second moment and the other side agree with quadrature",
     "C09_truncated": "the closed form has to be valid only on the CLIPPED interval [max a l, min b r] (pair predicate P), so l < 0 < r is allowed for "
         "infinite-activity masses: instance C09_truncated_vg_mass; C09_truncated_hem is the end-point-domain instance",
     "C09_xn_exp_refuted / C09_base_xn0_refuted / C09_vg_xn_refuted": "witnesses about the code BEFORE the fix: commits (models *_old); findings F-C09-1/2/3",
-    "generic quadrature fallbacks (n >= 3 for HEM/Merton/CGMY, CGMY second moment)": "no theorem: scipy.integrate.quad is modelled by its specification only",
+    "not_covered": "CGMY second moment (gammainc closed form for straddling intervals, scipy.quad otherwise), CGMY end points at zero / straddling "
+        "with y < 0 / half-lines, VG / Merton / x^n exp half-lines as limits: oracle only.  Considered in wave 5 and not attempted: the straddling CGMY "
+        "second moment needs the lower incomplete gamma integral from 0, which is improper for 1 < y < 2 (not an is_RInt) and, for y < 1, has "
+        "Coq's Rpower 0 s = 1 as a one-point discontinuity",
 }
 
 QUICK = dict(n_random=2, reps=1, coq_per_group=6)
@@ -67,6 +92,8 @@ def _cfg(res):
 
 # ============================================================================================ oracle
 def _finding_for(kind, params, a, b, n, via):
+    if kind == "cgmy" and (params["g"] == 0 or params["m"] == 0):
+        return "F-C09-13"
     if kind == "cgmy" and params["y"] < 0 and (a == 0 or b == 0 or a < 0 < b) and n == 0:
         return "F-C09-4"
     if via == "xn" and kind == "vg":
@@ -229,10 +256,12 @@ def _misc_oracle(res, rng):
             params = gen(rng)
             _, nu = L.build(kind, params)
             plain = PlainMeasure(nu)
-            for ikind in ("pos", "neg", "right-halfline", "left-halfline", "point"):
+            for ikind in ("pos", "neg", "right-halfline", "left-halfline", "point", "straddle", "touch0-right", "touch0-left",
+                          "left-halfline-straddle", "whole-line"):
                 a, b = L.interval(rng, ikind)
-                for n in range(4):
+                for n in range(5):
                     for via in (["direct", "xn"] if n <= 2 else ["xn"]):
+                        res.bump("generic_fallback", f"{kind} {ikind} n={n}{' split at zero' if n >= 3 and a < 0 < b else ''}")
                         ref = L.quad_xn_nu(nu, a, b, n)
                         res.count(("generic", kind, tuple(sorted(params.items())), a, b, n, via), kind="oracle generic quadrature fall-back")
                         rep = dict(kind="generic-fallback", model=kind, params=params, a=a, b=b, n=n, via=via, expected_quadrature=ref)
@@ -251,6 +280,30 @@ def _misc_oracle(res, rng):
                     res.violation("generic LevyMeasure.integrate*(a,b) with a > b does not raise", dict(kind="order", model="generic"))
                 except ValueError:
                     pass
+    # (a') the same fall-backs on densities that are SINGULAR at zero (VG ~ 1/|x|, CGMY ~ |x|^-(1+y)): one side of zero for every n,
+    # and straddling intervals for n >= 3, where integrate_against_xn splits at zero (integrate/_x/_xx do not split: a quadrature
+    # across the singularity only has the accuracy scipy.quad reaches there, so those are not asserted)
+    for kind, params in (("vg", L.vg_params(rng)), ("cgmy", L.cgmy_params(rng, y=0.3)), ("cgmy", L.cgmy_params(rng, y=-0.5))):
+        _, nu = L.build(kind, params)
+        plain = PlainMeasure(nu)
+        for ikind in ("pos", "neg", "straddle", "right-halfline-straddle"):
+            a, b = L.interval(rng, ikind)
+            for n in range(6):
+                if a < 0 < b and n < 3:
+                    continue
+                res.bump("generic_fallback", f"{kind} (singular density) {ikind} n={n}{' split at zero' if a < 0 < b else ''}")
+                ref = L.quad_xn_nu(nu, a, b, n)
+                res.count(("generic-singular", kind, tuple(sorted(params.items())), a, b, n), kind="oracle generic quadrature fall-back")
+                rep = dict(kind="generic-fallback", model=kind, params=params, a=a, b=b, n=n, via="xn", expected_quadrature=ref)
+                try:
+                    val = float(plain.integrate_against_xn(a, b, n))
+                except Exception as e:  # noqa
+                    rep["raised"] = f"{type(e).__name__}: {e}"
+                    res.violation("generic LevyMeasure quadrature fall-back raises on a valid interval", rep)
+                    continue
+                if not L.close(val, ref, rel=1e-6, ab=1e-7):
+                    rep["got"] = val
+                    res.violation("generic LevyMeasure quadrature fall-back differs from the quadrature of the density", rep)
     # (b)
     for kind, params in L.model_sets(rng, 1):
         _, nu = L.build(kind, params)
@@ -291,6 +344,29 @@ def _misc_oracle(res, rng):
             res.count(("density>=0", kind, tuple(sorted(params.items())), x), kind="oracle density non-negative")
             if not float(nu(x)) >= 0.0:
                 res.violation(f"{kind}: the Levy density is negative", dict(kind="density-sign", model=kind, params=params, x=x, got=float(nu(x))))
+
+
+def _degenerate_oracle(res, rng):
+    """CGMYParameters declares g and m `positive` (>= 0) and integrate_against_xx has explicit `m == 0` / `g == 0` branches: a rate of
+    zero (one-sided stable-like tail c/|x|^(1+y); a Levy measure for y > 0) is a parameter value of the family.  Every integral over a
+    finite interval that does not contain zero is finite: integrate / _x / _xx / _xn against the quadrature of the model's own density,
+    on the side whose rate is zero and on the other one, and the straddling second-moment closed form (gammainc branch vs power branch)."""
+    for (g, m) in ((0.0, L.rnd(rng, 2, 8, 1)), (L.rnd(rng, 2, 8, 1), 0.0)):
+        for y in (0.5, 1.0, 1.5, L.rnd(rng, 0.05, 0.95)):
+            params = dict(c=L.rnd(rng, 0.3, 2), g=g, m=m, y=y)
+            try:
+                _, nu = L.build("cgmy", params)
+            except ValueError:
+                res.bump("degenerate_rate", "refused by CGMYParameters")
+                continue
+            for ikind in ("pos", "neg", "straddle"):
+                a, b = L.interval(rng, ikind)
+                for n in range(4):
+                    if a < 0 < b and n - 1 - y <= -1:
+                        continue    # not integrable at zero
+                    for via in (["direct", "xn"] if n <= 2 else ["xn"]):
+                        res.bump("degenerate_rate", f"{'g' if g == 0 else 'm'}=0 {ikind} n={n}")
+                        _check_one(res, "cgmy", params, nu, a, b, n, via, "degenerate:" + ikind)
 
 
 def _rebuilt_oracle(res, rng):
@@ -392,6 +468,19 @@ def matches_known(v, known):
         ref = r["expected_quadrature"]
         err_emul = emul - ref
         return abs(err_emul) > 1e-6 * abs(ref) and abs(r["got"] - emul) <= 0.05 * abs(err_emul)
+    if known["id"] == "F-C09-13":
+        # CGMY with a rate of zero (g = 0 or m = 0, accepted by CGMYParameters): mass / first moment over an interval that meets the
+        # side whose rate is zero.  Explains ONLY a ZeroDivisionError (0.0 ** negative) or a nan (inf - inf of the two tails); a finite
+        # wrong value, another exception, the second moment, or an interval on the other side stay unlisted violations.
+        if r.get("model") != "cgmy" or r.get("truncations") or r.get("n") not in (0, 1) or r.get("rebuilt"):
+            return False
+        g, m, a, b = r["params"]["g"], r["params"]["m"], float(r["a"]), float(r["b"])
+        if not ((g == 0 and a < 0) or (m == 0 and b > 0)):
+            return False
+        if "raised" in r:
+            return r["raised"].startswith("ZeroDivisionError")
+        got = r.get("got")
+        return isinstance(got, float) and got != got
     return False
 
 
@@ -510,7 +599,7 @@ def _oracle(res, rng):
 
 
 # ============================================================================================ Coq correspondence
-HEADER = L.HEADER_COMMON + """From RV Require Import Base.RB Base.RSpecial Gen.GenC09Hem Gen.GenC09Vg Gen.GenC09Merton Gen.GenC09Trunc Model.LevyClosedForms
+HEADER = L.HEADER_COMMON + """From RV Require Import Base.RB Base.RSpecial Gen.GenC09Hem Gen.GenC09Vg Gen.GenC09Merton Gen.GenC09Trunc Model.LevyClosedForms Model.LevyGenericQuad
   Proofs.C09_Generic Proofs.C09_Hem Proofs.C09_XnExp Proofs.C09_Vg Proofs.C09_Merton Proofs.C09_Cgmy.
 Lemma Reqb_eq x y : x = y -> Reqb x y = true.
 Proof. intros ->. apply Reqb_same. Qed.
@@ -861,12 +950,50 @@ def _truncated_hem_cases(res, rng, per_group):
     return cases
 
 
+def _generic_cases(res, rng, per_group):
+    """the code AROUND scipy.quad in the generic fall-backs (guard, dispatch on n, split at zero for n >= 3) against generic_xn:
+    every quad call the implementation makes is recorded (end points, value) and handed to the model as a hypothesis
+    `quad n a_i b_i = v_i`; a call the model makes that the code did not make (or the converse) leaves the goal unprovable"""
+    import rpylib.model.levymodel.levymodel as LM
+    cases = []
+    shapes = [("straddle", 3), ("straddle", 4), ("straddle", 2), ("straddle", 0), ("pos", 3), ("neg", 5), ("touch0-right", 3), ("touch0-left", 4),
+              ("point", 3), ("neg", 1)]
+    for (ikind, n) in shapes[: max(6, per_group)]:
+        params = L.hem_params(rng) if rng.random() < 0.5 else L.merton_params(rng)
+        kind = "hem" if "eta1" in params else "merton"
+        _, nu = L.build(kind, params)
+        plain = PlainMeasure(nu)
+        a, b = L.interval(rng, ikind)
+        calls, orig = [], LM.quad
+
+        def recording(f, lo, hi, *args, **kw):
+            out = orig(f, lo, hi, *args, **kw)
+            calls.append((float(lo), float(hi), float(out[0])))
+            return out
+        LM.quad = recording
+        try:
+            v = float(plain.integrate_against_xn(a, b, n))
+        finally:
+            LM.quad = orig
+        hyps = [f"quad {n}%nat {rlit(lo)} {rlit(hi)} = {rlit(val)}" for (lo, hi, val) in calls]
+        names = [f"H{k}" for k in range(len(calls))]
+        stmt = ("forall quad : nat -> R -> R -> R, " + " -> ".join(hyps) + f" -> Rabs (generic_xn quad {n}%nat {rlit(a)} {rlit(b)} - {rlit(v)}) <= {tol_lit(v)[0]}")
+        proof = (f"intros quad {' '.join(names)}. unfold generic_xn, generic_xn_F, generic_integrate_n. rb. cbn [andb]. rb. cbn [andb]. "
+                 f"rewrite {', '.join('?' + x for x in names)}. {I80}")
+        cases.append(Case(("generic", ikind, n), stmt, proof, dict(model="generic fall-back over " + kind, params=params, a=a, b=b, n=n, impl=v,
+                                                                  quad_calls=calls)))
+        res.count(("coq-generic", tuple(sorted(params.items())), a, b, n), nontrivial=a != b, kind="coq generic fall-back branch structure")
+        res.bump("coq_generic_quad_calls", f"{ikind} n={n}: {len(calls)} quad call(s)")
+    return cases
+
+
 def _coq(res, rng):
     cfg = _cfg(res)
     k = cfg["coq_per_group"]
     cases = (_hem_cases(res, rng, k) + _trunc_cases(res, rng, k) + _xn_exp_cases(res, rng, max(2, k // 2)) + _vg_cases(res, rng, max(2, k // 2))
              + _merton_cases(res, rng, max(2, k // 2)) + _cgmy_cases(res, rng, max(3, k // 4)) + _cgmy_value_cases(res, rng, max(3, k // 2)) + _cgmy_code_value_cases(res, rng, max(3, k // 8))
-             + _density_cases(res, rng, max(2, k // 3)) + _truncated_hem_cases(res, rng, max(2, k // 2)))
+             + _density_cases(res, rng, max(2, k // 3)) + _truncated_hem_cases(res, rng, max(2, k // 2))
+             + _generic_cases(res, random.Random(res.seed + 9), max(6, k // 4)))
     hdr = HEADER
     nfiles, failed = L.run_cases(PROP, "cases", hdr, cases, jobs=12, timeout=600)
     res.case_lemmas += len(cases)
@@ -884,6 +1011,7 @@ def correspond(res):
     _near_singular(res, random.Random(res.seed + 3))
     _rebuilt_oracle(res, random.Random(res.seed + 5))
     _misc_oracle(res, random.Random(res.seed + 6))
+    _degenerate_oracle(res, random.Random(res.seed + 8))
     _coq(res, random.Random(res.seed + 1))
 
 
@@ -940,17 +1068,23 @@ def replay(path):
     return 1
 
 
-LEVEL_TEXT = ("Proof (partial): 33 Coq statements over R (Coquelicot), of which 5 are complete (HEM) and 12 are named _partial. For the HEM model the mass, first and second moment closed forms - "
+LEVEL_TEXT = ("Proof (partial): 38 Coq statements over R (Coquelicot), of which 5 are complete (HEM), 3 are complete relative to the specification "
+              "of scipy.quad (generic fall-backs) and 12 are named _partial. For the HEM model the mass, first and second moment closed forms - "
               "re-translated from hem.py by py2coq on every run - are proved to be the Riemann integral of x^n times the generated density for all "
               "parameters and all finite a <= b (either side of zero or straddling), with the half-line values as limits; the integral of "
               "x^n exp(-alpha|x|) is proved for every n by induction; VG (first/second/n-th moments, mass through the exponential integral), "
               "Merton (through erf by substitution) and CGMY (one side of zero, every y < 2 on the branch structure the code executes) are "
               "proved for finite end points only (theorems named _partial). Additivity over adjacent intervals, the sign rules and the truncated-measure clause are proved once for "
-              "every closed form that is an integral of x^n nu and instantiated per model. The tie to the source is the translator plus "
-              "~170 (quick) / ~1200 (thorough) interval-arithmetic case lemmas comparing the Coq closed forms AND the model densities with the "
-              "implementation's floats (for CGMY also the unfolded formula against the code's value with the special-function values as data). "
-              "Improper integrals for VG/Merton/CGMY, end points at zero, every scipy.quad fallback, the reporting of infinite integrals as +-inf and "
-              "the float conditioning near y = 0 / y = 1 (known finding F-C09-7) are checked only by the mpmath oracle.")
+              "every closed form that is an integral of x^n nu and instantiated per model (HEM, x^n exp, VG, Merton, CGMY, generic fall-backs). "
+              "The generic quadrature fall-backs of LevyMeasure are proved, for every density, every n and every a <= b, to return the integral whenever "
+              "scipy.quad meets its specification (guard, dispatch and split at zero are the modelled code; quad is a parameter), and additivity, sign "
+              "and the truncated measure follow for them. The tie to the source is the translator plus "
+              "~180 (quick) / ~1200 (thorough) interval-arithmetic case lemmas comparing the Coq closed forms AND the model densities with the "
+              "implementation's floats (for CGMY also the unfolded formula against the code's value with the special-function values as data; for "
+              "the generic fall-backs the branch structure with every recorded quad call as data). "
+              "Improper integrals for VG/Merton/CGMY, end points at zero, the accuracy of scipy.quad, the CGMY second moment, the reporting of infinite "
+              "integrals as +-inf, the float conditioning near y = 0 / y = 1 (known finding F-C09-7) and CGMY with a rate of zero (g = 0 or m = 0: "
+              "ZeroDivisionError / nan, finding F-C09-13, witness proved as C09_cgmy_rate0_refuted) are checked only by the mpmath oracle.")
 LEVEL_NOTE = ("Trusted: Coq kernel + vm_compute (Interval's reflexive checker), standard real/classical axioms (reported by Print Assumptions), "
               "py2coq (fail-closed), float infinity modelled as a real parameter INF, exp(-inf)=0/erf(inf)=1 float semantics, scipy special "
               "functions modelled by their defining integrals and tied by `integral` case lemmas, scipy.quad modelled by specification.")
